@@ -75,6 +75,10 @@ pub struct Scenario {
     /// `Server::max_connection_age`: connections older than this are told to go away while their
     /// calls finish; must change nothing about what shutdown promises
     pub max_connection_age: Option<Duration>,
+    /// rarely used knobs that must not change what the application observes: bit 0 server
+    /// `concurrency_limit_per_connection`, (1 unused), 2 server HTTP/2
+    /// keep-alive pings, 3 client `concurrency_limit`, 4 client `rate_limit`, 5 client keep-alive
+    pub opts: u32,
 }
 
 pub struct ScenarioOut {
@@ -112,6 +116,16 @@ pub fn run_scenario(sc: &Scenario) -> ScenarioOut {
         }
         if let Some(a) = sc.max_connection_age {
             sb = sb.max_connection_age(a);
+        }
+        let knob = 1 + (sc.seed % 3) as usize;
+        if sc.opts & 1 != 0 {
+            sb = sb.concurrency_limit_per_connection(knob);
+        }
+        // (bit 1, `max_concurrent_streams`, is not used: a client that opens streams before the
+        // server's SETTINGS arrive gets REFUSED_STREAM for the surplus - HTTP/2 behaviour, retriable,
+        // and nothing a handler produced)
+        if sc.opts & 4 != 0 {
+            sb = sb.http2_keepalive_interval(Some(Duration::from_millis(15))).http2_keepalive_timeout(Some(Duration::from_secs(5)));
         }
         let router = sb.add_service(VerifServer::new(h.clone()));
         let slog = log.clone();
@@ -185,6 +199,15 @@ pub fn run_scenario(sc: &Scenario) -> ScenarioOut {
             }
             if let Some(t) = sc.endpoint_timeout {
                 ep = ep.timeout(t);
+            }
+            if sc.opts & 8 != 0 {
+                ep = ep.concurrency_limit(knob);
+            }
+            if sc.opts & 16 != 0 {
+                ep = ep.rate_limit(4, Duration::from_millis(5));
+            }
+            if sc.opts & 32 != 0 {
+                ep = ep.http2_keep_alive_interval(Duration::from_millis(15)).keep_alive_timeout(Duration::from_secs(5)).keep_alive_while_idle(true);
             }
             if !sc.lazy[ci] {
                 // A server window below the HTTP/2 default must be known to the client before it
@@ -372,13 +395,14 @@ pub fn gen_scenario(rng: &mut Rng, with_signal: bool) -> Scenario {
         // only with default windows: an aged-out connection is replaced by a lazily established one,
         // and lazily established connections to a server with a lowered window run into the h2
         // stall described in DESIGN.md section 6
+        opts: if server_window.is_none() && rng.chance(1, 3) { rng.below(64) as u32 } else { 0 },
         max_connection_age: if with_signal && server_window.is_none() && rng.chance(1, 3) { Some(Duration::from_millis(*rng.pick(&[3u64, 10, 25, 60]))) } else { None },
     }
 }
 
 pub fn scenario_json(sc: &Scenario) -> serde_json::Value {
     json!({"conns": sc.conns, "signal": format!("{:?}", sc.signal), "keep_clients": sc.keep_clients, "pipe": format!("{:?}", sc.pipe_cfg),
-        "server_window": sc.server_window, "client_window": sc.client_window, "server_timeout_ms": sc.server_timeout.map(|d| d.as_millis() as u64), "max_connection_age_ms": sc.max_connection_age.map(|d| d.as_millis() as u64),
+        "server_window": sc.server_window, "client_window": sc.client_window, "server_timeout_ms": sc.server_timeout.map(|d| d.as_millis() as u64), "max_connection_age_ms": sc.max_connection_age.map(|d| d.as_millis() as u64), "option_mask": sc.opts,
         "calls": sc.calls.iter().map(|c| json!({"id": c.id, "conn": c.conn, "start_ms": c.start_ms, "shape": format!("{:?}", c.shape), "script": script_json(&c.script),
             "latency_ms": c.script.latency_ms, "gaps_ms": c.script.gaps_ms, "end_gap_ms": c.script.end_gap_ms})).collect::<Vec<_>>()})
 }
@@ -386,7 +410,7 @@ pub fn scenario_json(sc: &Scenario) -> serde_json::Value {
 pub fn run(cfg: &RunCfg) -> Ctx {
     let mut all = Ctx::new();
     all.merge(par_cases(cfg, "shutdown", cfg.n(1200, 16 * 2500), || (), |_, rng, ctx, _| case(rng, ctx)));
-    for k in ["phase.pre-headers", "phase.mid-stream", "phase.done", "phase.not-started", "scen.no_call_in_flight", "scen.post_signal_call", "scen.signal_with_accept", "scen.kept_idle_clients", "scen.server_timeout_configured", "scen.max_connection_age_configured", "observed.accepted_calls_completed"] {
+    for k in ["phase.pre-headers", "phase.mid-stream", "phase.done", "phase.not-started", "scen.no_call_in_flight", "scen.post_signal_call", "scen.signal_with_accept", "scen.kept_idle_clients", "scen.server_timeout_configured", "scen.max_connection_age_configured", "scen.rare_options_set", "observed.accepted_calls_completed"] {
         all.floor(k, 3);
     }
     all
@@ -497,6 +521,9 @@ fn case(rng: &mut Rng, ctx: &mut Ctx) {
     }
     if sc.max_connection_age.is_some() {
         ctx.count("scen.max_connection_age_configured");
+    }
+    if sc.opts != 0 {
+        ctx.count("scen.rare_options_set");
     }
     if sc.server_timeout.is_some() {
         ctx.count("scen.server_timeout_configured");
